@@ -14,7 +14,7 @@ if [ "${BASELINE:-0}" = 1 ]; then
      --continue-on-collection-errors -x -q 2>&1 | tail -3) | grep -v "^W"
 fi
 for id in "$@"; do
-  out=$(cd /verif && VERIF_REPO="$D/repo" VERIF_OUT="$D/out" ./check "$id" --tier "${TIER:-quick}" ${ONLY:+--only "$ONLY"} 2>&1)
+  out=$(cd /verif && timeout ${MUT_TIMEOUT:-1500} env VERIF_REPO="$D/repo" VERIF_OUT="$D/out" ./check "$id" --tier "${TIER:-quick}" ${ONLY:+--only "$ONLY"} 2>&1)
   rc=$?
   if [ $rc = 1 ] && echo "$out" | grep -q "^VIOLATION property=$id"; then
     echo "DETECTED $id $(basename "$PATCH"): $(echo "$out" | grep -m1 'violation:' | cut -c1-220)"
